@@ -93,7 +93,13 @@ func streams(a *hx.Args, w *world, rng *mrand.Rand, res *hx.Result) {
 		}
 		// a toy chunk c in 0..7 fixes the three most significant bits of the offset; 0 and 7 are all zeros / all ones
 		var cands []*gobig.Int
-		for _, c := range sc.Reads {
+		lastOrdinary := -1
+		for ci, c := range sc.Reads {
+			if c != 0 && c != 7 {
+				lastOrdinary = ci
+			}
+		}
+		for ci, c := range sc.Reads {
 			var chunk []byte
 			switch c {
 			case 0:
@@ -101,11 +107,24 @@ func streams(a *hx.Args, w *world, rng *mrand.Rand, res *hx.Result) {
 			case 7:
 				chunk = fill(eb, 0xff)
 			default:
-				chunk = make([]byte, eb)
-				rng.Read(chunk)
-				chunk[0] &= byte(1<<topBits - 1)
-				chunk[0] &^= 7 << (topBits - 3)
-				chunk[0] |= byte(c) << (topBits - 3)
+				// every third script gets a PRIME as its last ordinary candidate (found by search; a random candidate of this
+				// size is prime once in about 200 times, too rarely to rely on): the signer must take the first prime it is offered
+				wantPrime := si%3 == 0 && ci == lastOrdinary
+				for tries := 0; ; tries++ {
+					chunk = make([]byte, eb)
+					rng.Read(chunk)
+					chunk[0] &= byte(1<<topBits - 1)
+					chunk[0] &^= 7 << (topBits - 3)
+					chunk[0] |= byte(c) << (topBits - 3)
+					if !wantPrime || tries > 20000 {
+						break
+					}
+					off := new(gobig.Int).SetBytes(chunk)
+					off.And(off, new(gobig.Int).Sub(pow2(length), one)).SetBit(off, 0, 1)
+					if off.Add(off, pow2(start)).ProbablyPrime(20) {
+						break
+					}
+				}
 			}
 			rd.chunks = append(rd.chunks, chunk)
 			off := new(gobig.Int).SetBytes(chunk)
